@@ -34,7 +34,25 @@ Tolerances (the statement: "to within the coarser of the two formats' time resol
   bpm values: 1e-9 relative; 0.0005 absolute when the target is BMS (#BPMxx is printed with 3 decimals, C05).
 BMS has no offset field (time 0 IS the first measure line): for a BMS target the source's times are taken relative
 to the source's first tempo point.  O2JToBMS.convert has the documented default move_right_by=1 (lane 0 is the
-scratch lane): with the default call the expected column is source column + 1; half of the cases pass 0.
+scratch lane): with the default call the expected column is source column + 1; the other cases pass 0 or 2.
+
+Input dimensions of a case besides the score (all optional in the JSON `case`; absent = the plain call):
+  shape            how the objects of the charts were drawn (plain | hits_only | holds_only | top_holds_only | chords |
+                   on_lines | empty_chart); the objects themselves are in score.charts, the key is informative
+  tps_shuffled     osu / Quaver: timing points (and the SV line) written in shuffled file order
+  text             metadata text drawn from another pool than plain ASCII: sjis (full-width, U+3000) | unicode (accents,
+                   Hangul, emoji, tab / U+00A0 / U+3000 inside, wave dash; not into / out of BMS) | punct (':' ',' '#' '/' '"' '\\'; never ';' or '//')
+  sparse           Quaver: keys the format allows to be omitted are omitted (StartTime 0, KeySounds, meta keys), record
+                   keys in shuffled order
+  via.read         lines (default) | str | instance | keepends | unsafe (Quaver safe=False) | default_layout / positional
+                   (BMS) | file / file_path (read_file with a str / a pathlib.Path; text files LF or CRLF: via.eol)
+  via.conv         class (default) | instance
+  via.raise_bad_mode   OsuToQua / OsuToSM / BMSToQua / SMToQua: the optional argument given (False / True)
+  via.pre          another target the SAME read object is converted to and written first (result thrown away)
+  via.twice        convert + write run twice on the same read object; the SECOND output is the one compared
+  via.write        memory (default) | file (write_file, the file's content is what is compared)
+  via.nsd          BMS target: the writer's no_sample_default argument (non-default id)
+  via.default_out  BMS target in the BME layout: note_channel_config left to its documented default
 """
 from __future__ import annotations
 
@@ -76,10 +94,23 @@ BMS_LANES = dict(PMS_5B=5, PMS=9, BMS=14, BME=16, PMS_BME=18)  # lanes 0..n-1 of
 # every value: at most 3 decimals (BMS #BPMxx precision) and exactly representable as float32 (OJN tempo fields)
 BPM_POOL = ("60", "90", "120", "125", "150", "177.5", "200", "240", "90.25", "133.125")
 T0_POOL = (0, 0, 0, 500, 1118, -635, 2250, 9)  # ms position of beat 0 (formats with an offset: osu, Quaver, .sm)
+T0_FAR = (-50000, 123456, 3600000)  # a long way from 0 ms, both sides (5 % of the files with an offset)
+SHAPES = ("hits_only", "holds_only", "top_holds_only", "chords", "on_lines", "empty_chart")
 DENS = (1, 2, 3, 4, 6, 8, 12, 16, 24, 48)  # object positions k/d of a beat: the 1/48-beat grid
 HOLD_BEATS = ("1/4", "1/2", "3/4", "1", "4/3", "2", "5/2", "4", "6", "1/48", "49/48")
 MIN_GAP = Fraction(1, 4)  # beats between the end of an object and the next object of its column
 ASCII_TEXT = ("song", "artist name", "Evening", "Hard", "mapper", "v1 (final)", "a b  c", "x-y_z")
+# metadata text is no part of what is compared; it must not break reading, converting or the validity of the written file
+TEXT_POOLS = dict(
+    sjis=("\u66f2\u540d", "\u30a2\u30fc\u30c6\u30a3\u30b9\u30c8\u3000\u540d", "\uff46\uff55\uff4c\uff4c\u3000\uff57\uff49\uff44\uff54\uff48", "song"),  # Shift-JIS encodable, full-width letters, U+3000
+    unicode=("na\u00efve caf\u00e9", "\u03a9\u2248\u00e7 \u221a2", "\ud55c\uad6d\uc5b4 \uc81c\ubaa9", "emoji \U0001f3b5 title", "tab\there", "nbsp\u00a0in", "ideo\u3000space", "\u66f2\u540d\uff5e"),
+    punct=("a: b", "x, y", "tag #1", "see / this", 'q"uote', "back\\slash", "- dash", "[x]", "{y}", "k: v: w"),  # no ';' (ends a .sm tag), no '//' (starts a .sm comment)
+)
+assert all(t.encode("shift_jis") for t in TEXT_POOLS["sjis"])
+
+
+def _texts(case):
+    return TEXT_POOLS.get(case.get("text"), ASCII_TEXT)
 
 
 def _keys_for(src, tgt):
@@ -92,7 +123,7 @@ def _keys_for(src, tgt):
         return QUA_KEYCOUNTS
     if src == "sm" or tgt == "sm":
         return tuple(SM_TYPE)
-    return (1, 2, 4, 5, 7, 8, 9)  # osu <-> BMS
+    return (1, 2, 3, 4, 5, 6, 7, 8, 9, 10)  # osu <-> BMS
 
 
 def _layout_for(rng, n_columns):
@@ -127,9 +158,31 @@ class Score:
         return dict(objs=objs, tempo=[(self.ms(b), v) for b, v in self.tempo])
 
 
-def gen_objs(rng, keys, n_meas, top_used=True):
+def gen_objs(rng, keys, n_meas, top_used=True, shape=None, lines=()):
     """Objects of one chart: per column a time-ordered, non-overlapping sequence on the 1/48-beat grid.  top_used:
-    the top column holds an object (the plain family); otherwise it stays empty (family `declared_key_count`)."""
+    the top column holds an object (the plain family); otherwise it stays empty (family `declared_key_count`).
+    shape: None = hits and holds anywhere; hits_only / holds_only; top_holds_only (the top column carries holds only);
+    chords (every object has a partner at exactly the same beat in another column); on_lines (positions are beat 0,
+    measure lines and the beats of the tempo changes `lines`); empty_chart (no object at all)."""
+    if shape == "empty_chart":
+        return dict(keys=keys, objs=[])
+    if shape == "chords" and keys >= 2:
+        objs, free = [], {}
+        beats = sorted({Fraction(rng.randrange(0, 4 * n_meas * d), d) for d in (rng.choice(DENS) for _ in range(rng.randrange(1, 5)))} | ({Fraction(0)} if rng.random() < 0.3 else set()))
+        for p in beats:
+            cols = rng.sample(range(keys), rng.randrange(2, min(keys, 4) + 1))
+            if top_used and not objs:
+                cols = sorted(set(cols) | {keys - 1})
+            elif not top_used:
+                cols = [c for c in cols if c != keys - 1] or [0]
+            for c in cols:
+                if p < free.get(c, 0):
+                    continue
+                ln = Fraction(rng.choice(HOLD_BEATS)) if rng.random() < 0.4 else Fraction(0)
+                objs.append([c, str(p), str(ln)])
+                free[c] = p + ln + MIN_GAP
+        rng.shuffle(objs)
+        return dict(keys=keys, objs=objs)
     if top_used or keys == 1:
         cols = sorted(set(rng.sample(range(keys), rng.randrange(1, min(keys, 5) + 1))) | {keys - 1})
     else:
@@ -140,18 +193,25 @@ def gen_objs(rng, keys, n_meas, top_used=True):
         for _ in range(rng.randrange(1, 5)):
             d = rng.choice(DENS)
             cand.append(Fraction(rng.randrange(0, 4 * n_meas * d), d))
+        if shape == "on_lines":
+            pool = [Fraction(0)] + [Fraction(4 * m) for m in range(n_meas)] + [Fraction(4 * m) for m in lines] * 3
+            cand = [rng.choice(pool) for _ in cand]
         free = Fraction(0)
         for p in sorted(set(cand)):
             if p < free:
                 continue
             ln = Fraction(rng.choice(HOLD_BEATS)) if rng.random() < 0.4 else Fraction(0)
+            if shape == "hits_only" or (shape == "top_holds_only" and c != keys - 1 and rng.random() < 0.7):
+                ln = Fraction(0)
+            elif (shape == "holds_only" or (shape == "top_holds_only" and c == keys - 1)) and not ln:
+                ln = Fraction(rng.choice(HOLD_BEATS))
             objs.append([c, str(p), str(ln)])
             free = p + ln + MIN_GAP
     rng.shuffle(objs)
     return dict(keys=keys, objs=objs)
 
 
-def gen_score(rng, keys_per_chart, with_t0, top_used=True):
+def gen_score(rng, keys_per_chart, with_t0, top_used=True, shape=None):
     n_meas = rng.randrange(2, 7) if rng.random() < 0.92 else rng.randrange(20, 61)  # a few long scores
     n_t = min(rng.choice((1, 2, 2, 3, 4)), n_meas)
     at = [0] + sorted(rng.sample(range(1, n_meas), n_t - 1))
@@ -160,7 +220,14 @@ def gen_score(rng, keys_per_chart, with_t0, top_used=True):
         v = rng.choice([b for b in BPM_POOL if b != prev or rng.random() < 0.15])  # sometimes a redundant tempo point
         tempo.append([m, v])
         prev = v
-    return dict(t0=rng.choice(T0_POOL) if with_t0 else 0, tempo=tempo, charts=[gen_objs(rng, k, n_meas, top_used) for k in keys_per_chart])
+    if shape is None:
+        charts = [gen_objs(rng, k, n_meas, top_used) for k in keys_per_chart]
+    else:
+        # a set of several charts: the shape goes to ONE chart - the middle one where there are three - the others are plain
+        who = len(keys_per_chart) // 2 if shape == "empty_chart" else rng.randrange(len(keys_per_chart))
+        charts = [gen_objs(rng, k, n_meas, top_used, shape if i == who or shape != "empty_chart" and rng.random() < 0.5 else None, at[1:]) for i, k in enumerate(keys_per_chart)]
+    t0 = (rng.choice(T0_FAR) if shape is not None and rng.random() < 0.15 else rng.choice(T0_POOL)) if with_t0 else 0
+    return dict(t0=t0, tempo=tempo, charts=charts)
 
 
 def gen_case(rng, src, tgt):
@@ -168,23 +235,69 @@ def gen_case(rng, src, tgt):
     k = rng.choice(keys)
     n_charts = 3 if src == "o2j" else rng.choice((1, 1, 2)) if src == "sm" else 1
     top_used = src == "bms" or rng.random() >= 0.1  # a BMS text declares no key count: highest used lane + 1 IS its key count
-    score = gen_score(rng, [k] + [rng.choice(keys) for _ in range(n_charts - 1)], with_t0=src in ("osu", "qua", "sm"), top_used=top_used)
+    shape = rng.choice(SHAPES) if rng.random() < 0.35 else None
+    if shape == "empty_chart" and (src == "bms" or rng.random() < 0.5):
+        shape = "hits_only"  # an empty BMS text declares no key count at all; elsewhere empty charts stay a small share
+    if shape == "empty_chart" and src == "sm":
+        n_charts = 3
+    score = gen_score(rng, [k] + [rng.choice(keys) for _ in range(n_charts - 1)], with_t0=src in ("osu", "qua", "sm"), top_used=top_used, shape=shape)
     case = dict(src=src, tgt=tgt, seed=rng.randrange(1 << 30), score=score)
+    if shape:
+        case["shape"] = shape
     if src in ("osu", "qua"):
         case["int_ms"] = rng.random() < 0.5  # object times written as whole ms (as the editors do) / exact decimals
+        if rng.random() < 0.3:
+            case["tps_shuffled"] = True
+    if src == "qua" and rng.random() < 0.4:
+        case["sparse"] = True
+    if src != "o2j" and rng.random() < 0.25:
+        # BMS texts are Shift-JIS: into / out of BMS only what that encoding has
+        case["text"] = rng.choice(("sjis", "punct") if "bms" in (src, tgt) else ("sjis", "unicode", "punct"))
     shift = 0
     if (src, tgt) == ("o2j", "bms"):
-        case["move_right_by"] = rng.choice((None, 0))  # None: the default call
-        shift = 1 if case["move_right_by"] is None else 0
+        case["move_right_by"] = rng.choice((None, None, 0, 0, 2))  # None: the default call
+        shift = 1 if case["move_right_by"] is None else case["move_right_by"]
     elif src in ("osu", "qua") and tgt == "bms" and rng.random() < 0.3:
-        case["move_right_by"] = 1  # the explicit shift argument of OsuToBMS / QuaToBMS (default 0)
-        shift = 1
+        case["move_right_by"] = rng.choice((1, 1, 2))  # the explicit shift argument of OsuToBMS / QuaToBMS (default 0)
+        shift = case["move_right_by"]
     kmax = max(c["keys"] for c in score["charts"])
     if src == "bms":
         case["layout"] = _layout_for(rng, kmax)
     if tgt == "bms":
         case["out_layout"] = _layout_for(rng, kmax + shift)
+    via = gen_via(rng, case)
+    if via:
+        case["via"] = via
     return case
+
+
+def gen_via(rng, case):
+    """How the three public calls are made (see the module docstring); {} = the plain in-memory calls."""
+    src, tgt = case["src"], case["tgt"]
+    via = {}
+    if rng.random() < 0.4:
+        ways = dict(osu=["instance", "keepends", "file", "file_path"], qua=["str", "unsafe", "instance", "file", "file_path"], sm=["str", "instance", "file", "file_path"],
+                    bms=["positional", "instance", "file", "file_path"] + (["default_layout"] * 2 if case.get("layout") == "BME" else []), o2j=["instance", "file", "file_path"])[src]
+        via["read"] = rng.choice(ways)
+        if via["read"].startswith("file") and src in ("qua", "sm"):
+            via["eol"] = rng.choice(("lf", "crlf"))
+    if rng.random() < 0.2:
+        via["conv"] = "instance"
+    if (src, tgt) in RAISE_BAD_MODE and rng.random() < 0.3:
+        via["raise_bad_mode"] = rng.choice((False, False, True))
+    r = rng.random()
+    if r < 0.1:
+        via["pre"] = rng.choice([t for t in TARGETS[src] if t != tgt])
+    elif r < 0.2:
+        via["twice"] = True
+    if rng.random() < 0.25:
+        via["write"] = "file"
+    if tgt == "bms":
+        if rng.random() < 0.25:
+            via["nsd"] = rng.choice(("0A", "ZY", "1Z"))
+        if case.get("out_layout") == "BME" and rng.random() < 0.5:
+            via["default_out"] = True
+    return via
 
 
 def simple_cases(src, tgt):
@@ -208,6 +321,44 @@ def simple_cases(src, tgt):
                 if tgt == "bms":
                     case["out_layout"] = next(n for n, lanes in BMS_LANES.items() if lanes >= k + ((src, tgt) == ("o2j", "bms")))
                 out.append(case)
+    k0 = 7 if 7 in _keys_for(src, tgt) else 4
+    base = next(c for c in out if c["score"]["charts"][0]["keys"] == k0)
+
+    nch = len(base["score"]["charts"])
+
+    def variant(objs_per_chart, **more):
+        c = dict(base, score=dict(t0=0, tempo=[[0, "120"], [1, "90"]], charts=[dict(keys=k0, objs=o) for o in objs_per_chart]), **more)
+        return c
+
+    plain = [[k0 - 1, "1", "0"], [0, "2", "1"]]
+    # the top column carries a hold only; a chart of holds only; a chord on beat 0 and one on the tempo change (measure 1 = beat 4)
+    out.append(variant([[[k0 - 1, "1", "2"], [0, "1/2", "0"]]] * nch, shape="top_holds_only"))
+    out.append(variant([[[k0 - 1, "1", "2"]]] * nch, shape="holds_only"))
+    if k0 >= 2:
+        out.append(variant([[[0, "0", "0"], [k0 - 1, "0", "1"], [0, "4", "1/2"], [k0 - 1, "4", "0"]]] * nch, shape="chords"))
+    if src != "bms":
+        # a chart without any object: the only chart of the file, or the middle one of three (.sm: three charts of one type)
+        n_e = 3 if src in ("sm", "o2j") else 1
+        out.append(variant([[] if i == n_e // 2 else plain for i in range(n_e)], shape="empty_chart"))
+    # the other ways of making the three calls, a few at a time (the random cases mix them freely)
+    reads = dict(osu=["file", "keepends"], qua=["file", "str", "unsafe"], sm=["file_path", "str"], bms=["file", "positional"], o2j=["file_path", "instance"])[src]
+    crlf = dict(eol="crlf") if src in ("qua", "sm") else {}
+    out.append(variant([plain] * nch, via=dict(read=reads[0], **crlf)))
+    out.append(variant([plain] * nch, via=dict(read=reads[1], conv="instance", write="file")))
+    out.append(variant([plain] * nch, via=dict(twice=True, **(dict(read=reads[2]) if reads[2:] else {}))))
+    out.append(variant([plain] * nch, via=dict(pre=next(t for t in TARGETS[src] if t != tgt))))
+    if tgt == "bms":
+        lanes_needed = k0 + ((src, tgt) == ("o2j", "bms"))
+        if lanes_needed <= BMS_LANES["BME"]:
+            out.append(variant([plain] * nch, out_layout="BME", via=dict(default_out=True, nsd="0A", write="file")))
+        else:
+            out.append(variant([plain] * nch, via=dict(nsd="0A", write="file")))
+    if src == "bms" and k0 <= BMS_LANES["BME"]:
+        out.append(variant([plain] * nch, layout="BME", via=dict(read="default_layout")))
+    if src == "osu":
+        out.append(variant([plain] * nch, tps_shuffled=True))
+    if src == "qua":
+        out.append(variant([[[k0 - 1, "0", "0"], [0, "2", "1"]]] * nch, sparse=True, tps_shuffled=True))
     if src != "bms" and 7 in _keys_for(src, tgt):  # smallest member of the family declared_key_count: 7 keys, columns 0 and 4 used
         case = dict(out[0], score=dict(t0=0, tempo=[[0, "120"]], charts=[dict(keys=7, objs=[[0, "1", "0"], [4, "2", "0"]]) for _ in out[0]["score"]["charts"]]))
         if tgt == "bms":
@@ -238,7 +389,7 @@ def build_osu(case):
     K = chart["keys"]
     spec = gen_text_case(rs, K)  # metadata / events of the C01 generator; timing points and objects replaced
     for k in ("Title", "TitleUnicode", "Artist", "ArtistUnicode", "Creator", "Version", "Source"):
-        spec["meta"][k] = rs.choice(ASCII_TEXT)  # plain ASCII: text that every target can carry (see rep.bound)
+        spec["meta"][k] = rs.choice(_texts(case))  # default plain ASCII: text that every target can carry (see rep.bound)
     spec["meta"].update(Tags="a b", AudioFilename="audio.mp3", Countdown=rs.choice((0, 1)))
     spec.update(bg="bg.png", samples=[], pad=False)
     tps = []
@@ -256,6 +407,8 @@ def build_osu(case):
         else:
             o["type"] = rs.choice((1, 5))
         objs.append(o)
+    if case.get("tps_shuffled"):
+        rs.shuffle(tps)  # the [TimingPoints] lines in any file order (the dialect of C01 does not order them)
     spec.update(tps=tps, objs=objs)
     return emit_text(spec)
 
@@ -263,14 +416,17 @@ def build_osu(case):
 def build_qua(case):
     rs = random.Random(case["seed"])
     sc, chart = Score(case["score"]), case["score"]["charts"][0]
+    sparse = bool(case.get("sparse"))
     top = []
     for k in QUA_META_KEYS:
+        if sparse and k != "Mode" and rs.random() < 0.4:
+            continue  # every key but the mode may be left out (A5 defaults)
         if k == "Mode":
             v = "Keys4" if chart["keys"] == 4 else "Keys7"
         elif k == "Tags":
             v = "tag1 tag2"
         elif k in QUA_TEXT_KEYS:
-            v = rs.choice(ASCII_TEXT)
+            v = rs.choice(_texts(case))
         elif k in QUA_INT_KEYS:
             v = rs.choice((-1, 0, 12345))
         elif k in QUA_BOOL_KEYS:
@@ -286,10 +442,19 @@ def build_qua(case):
         r = [["StartTime", _t_out(sc.ms(b), case["int_ms"])], ["Lane", c + 1]]
         if ln:
             r.append(["EndTime", _t_out(sc.ms(b + ln), case["int_ms"])])
-        r.append(["KeySounds", []])
+        if not sparse or rs.random() < 0.5:
+            r.append(["KeySounds", []])
         recs.append(r)
     tps = [[["StartTime", _t_out(sc.ms(b), False)], ["Bpm", float(v)]] for b, v in sc.tempo]
     svs = [[["StartTime", _t_out(sc.ms(Fraction(2)), False)], ["Multiplier", 0.5]]] if rs.random() < 0.5 else []
+    if sparse:
+        # Quaver itself leaves out a StartTime of 0; the keys of a record in any order
+        for r in recs + tps + svs:
+            if r[0][0] == "StartTime" and r[0][1] == 0:
+                del r[0]
+            rs.shuffle(r)
+    if case.get("tps_shuffled"):
+        rs.shuffle(tps)
     style = rs.choice(("block", "flow"))
     top += [["TimingPoints", [tps, style], ""], ["SliderVelocities", [svs, style], ""], ["HitObjects", [recs, style], ""]]
     return emit_doc(dict(top=top))
@@ -316,14 +481,14 @@ def build_sm(case):
         if h[0] == "OFFSET":
             h[1] = dec_str(-Fraction(score["t0"]) / 1000)  # beat 0 at -OFFSET seconds
         elif h[0] in ("TITLE", "SUBTITLE", "ARTIST", "TITLETRANSLIT", "SUBTITLETRANSLIT", "ARTISTTRANSLIT", "GENRE", "CREDIT"):
-            h[1] = rs.choice(ASCII_TEXT)
+            h[1] = rs.choice(_texts(case))
         elif h[0] in ("BANNER", "BACKGROUND", "LYRICSPATH", "CDTITLE", "MUSIC"):
             h[1] = rs.choice(("bn.png", "bg.jpg", "x-y_z.mp3", ""))
     charts = []
     for ch in score["charts"]:
         cells = _measures_of(ch, "123")
         measures = []
-        for m in range(max(cells) + 1):
+        for m in range(max(cells, default=0) + 1):
             R = 4
             for p in cells.get(m, {}):
                 R = _lcm(R, p.denominator)
@@ -365,7 +530,7 @@ def bms_case_of(case):
             slots = {str(int(p * d)): (s if s == "ZZ" else rs.choice(sorted(wav))) for p, s in sorted(per_col[c].items())}
             lines.append(dict(m=m, ch=lanes[c], d=d, slots=slots))
     lines.sort(key=lambda l: l["m"])  # stable: file order = time order in every lane (one line per measure and lane)
-    header = dict(TITLE=rs.choice(ASCII_TEXT), ARTIST=rs.choice(ASCII_TEXT), PLAYLEVEL=str(rs.randrange(1, 13)), BPM=score["tempo"][0][1])
+    header = dict(TITLE=rs.choice(_texts(case)), ARTIST=rs.choice(_texts(case)), PLAYLEVEL=str(rs.randrange(1, 13)), BPM=score["tempo"][0][1])
     return dict(layout=case["layout"], header=header, others=dict(rs.sample([("PLAYER", "1"), ("TOTAL", "300"), ("RANK", "3")], rs.randrange(0, 3))), lnobj="ZZ", wav=wav, exbpm=exbpm, lines=lines, decor=rs.random() < 0.5)
 
 
@@ -545,47 +710,149 @@ def denote_target(tgt, text, layout_name):
 # ============================================================================= the real library
 
 
+def _via(case):
+    return case.get("via") or {}
+
+
+RAISE_BAD_MODE = {("osu", "qua"), ("osu", "sm"), ("bms", "qua"), ("sm", "qua")}  # converters with the optional argument raise_bad_mode (default True)
+
+
+def _with_file(data, suffix, fn, as_path):
+    """fn(path) on a temporary file holding `data` (bytes); the file is removed afterwards."""
+    import os
+    import tempfile
+    from pathlib import Path
+
+    fd, p = tempfile.mkstemp(suffix=suffix, prefix="c09_")
+    try:
+        with os.fdopen(fd, "wb") as f:
+            f.write(data)
+        return fn(Path(p) if as_path else p)
+    finally:
+        os.unlink(p)
+
+
 def real_read(case, payload):
     src = case["src"]
+    how = _via(case).get("read", "lines")
+    as_path = how == "file_path"
+    eol = "\r\n" if _via(case).get("eol") == "crlf" else "\n"
     if src == "osu":
         from reamber.osu.OsuMap import OsuMap
 
-        return OsuMap.read(payload.split("\n"))
+        if how.startswith("file"):
+            return _with_file(payload.encode("utf8"), ".osu", OsuMap.read_file, as_path)  # line ends: the text's own (LF or CRLF)
+        if how == "keepends":  # the lines with their terminators, as readlines() gives them
+            parts = payload.split("\n")
+            return OsuMap.read([q + "\n" for q in parts[:-1]] + ([parts[-1]] if parts[-1] else []))
+        return (OsuMap() if how == "instance" else OsuMap).read(payload.split("\n"))
     if src == "qua":
         from reamber.quaver.QuaMap import QuaMap
 
-        return QuaMap.read(payload.split("\n"))
+        if how.startswith("file"):
+            return _with_file(payload.replace("\n", eol).encode("utf8"), ".qua", QuaMap.read_file, as_path)
+        if how == "str":
+            return QuaMap.read(payload)
+        if how == "unsafe":
+            return QuaMap.read(payload.split("\n"), safe=False)
+        return (QuaMap() if how == "instance" else QuaMap).read(payload.split("\n"))
     if src == "sm":
         from reamber.sm.SMMapSet import SMMapSet
 
-        return SMMapSet.read(payload.split("\n"))
+        if how.startswith("file"):
+            return _with_file(payload.replace("\n", eol).encode("utf8"), ".sm", SMMapSet.read_file, as_path)
+        if how == "str":
+            return SMMapSet.read(payload)
+        return (SMMapSet() if how == "instance" else SMMapSet).read(payload.split("\n"))
     if src == "bms":
         from reamber.bms.BMSMap import BMSMap
 
-        return BMSMap.read(payload, note_channel_config=layout_of(case["layout"]))
+        lay = layout_of(case["layout"])
+        if how.startswith("file"):
+            return _with_file("\r\n".join(payload).encode("shift_jis") + b"\r\n", ".bms", lambda q: BMSMap.read_file(q, note_channel_config=lay), as_path)
+        if how == "default_layout":
+            assert case["layout"] == "BME"  # the documented default
+            return BMSMap.read(payload)
+        if how == "positional":
+            return BMSMap.read(payload, lay)
+        return (BMSMap() if how == "instance" else BMSMap).read(payload, note_channel_config=lay)
     from reamber.o2jam.O2JMapSet import O2JMapSet
 
-    return O2JMapSet.read(payload)
+    if how.startswith("file"):
+        return _with_file(payload, ".ojn", O2JMapSet.read_file, as_path)
+    return (O2JMapSet() if how == "instance" else O2JMapSet).read(payload)
 
 
-def real_convert(case, m):
+def _convert_to(case, m, tgt, move_right_by=None):
     import reamber.algorithms.convert as cv
 
-    conv = getattr(cv, f"{NAME[case['src']]}To{NAME[case['tgt']]}")
-    if case.get("move_right_by") is not None:
-        out = conv.convert(m, move_right_by=case["move_right_by"])
-    else:
-        out = conv.convert(m)
+    conv = getattr(cv, f"{NAME[case['src']]}To{NAME[tgt]}")
+    if _via(case).get("conv") == "instance":
+        conv = conv()  # convert is a classmethod: through an instance it is the same function
+    kw = {}
+    if move_right_by is not None:
+        kw["move_right_by"] = move_right_by
+    if tgt == case["tgt"] and _via(case).get("raise_bad_mode") is not None and (case["src"], tgt) in RAISE_BAD_MODE:
+        kw["raise_bad_mode"] = _via(case)["raise_bad_mode"]  # every key count generated is one the target supports: no difference allowed
+    out = conv.convert(m, **kw)
     return list(out) if isinstance(out, (list, tuple)) else [out]
 
 
-def real_write(case, m):
-    tgt = case["tgt"]
+def real_convert(case, m):
+    via = _via(case)
+    if via.get("pre"):
+        # the same read object is first converted to ANOTHER game and written; whatever happens there is not this
+        # case's business (it is that pair's), the object must serve the conversion under test afterwards all the same
+        try:
+            for o in _convert_to(case, m, via["pre"]):
+                _write_as(via["pre"], o, "PMS_BME", {})
+        except Exception:  # noqa
+            pass
+    if via.get("twice"):
+        for o in _convert_to(case, m, case["tgt"], case.get("move_right_by")):
+            real_write(case, o)
+    return _convert_to(case, m, case["tgt"], case.get("move_right_by"))
+
+
+def _write_as(tgt, m, out_layout, via):
+    to_file = via.get("write") == "file"
+    if tgt == "bms":
+        kw = {}
+        if not via.get("default_out"):
+            kw["note_channel_config"] = layout_of(out_layout)
+        else:
+            assert out_layout == "BME"  # the documented default
+        if via.get("nsd"):
+            kw["no_sample_default"] = via["nsd"].encode()
+        if to_file:
+            return _through_file(lambda q: m.write_file(q, **kw), ".bms", binary=True)
+        return m.write(**kw)
+    if to_file:
+        return _through_file(m.write_file, {"osu": ".osu", "qua": ".qua", "sm": ".sm"}[tgt], binary=False)
     if tgt == "osu":
         return "\n".join(m.write())
-    if tgt == "bms":
-        return m.write(note_channel_config=layout_of(case["out_layout"]))
     return m.write()
+
+
+def _through_file(write_file, suffix, binary):
+    import os
+    import tempfile
+
+    d = tempfile.mkdtemp(prefix="c09_")
+    p = os.path.join(d, "out" + suffix)
+    try:
+        write_file(p)
+        with open(p, "rb") as f:
+            b = f.read()
+        return b if binary else b.decode("utf8")
+    finally:
+        if os.path.exists(p):
+            os.unlink(p)
+        os.rmdir(d)
+
+
+def real_write(case, m):
+    return _write_as(case["tgt"], m, case.get("out_layout"), _via(case))
 
 
 # ============================================================================= comparison (the statement's clauses)
@@ -663,7 +930,7 @@ def compare(case, want, got):
     """[(clause, detail)] of objects / columns / hold_lengths / tempo_timeline for one chart."""
     src, tgt = case["src"], case["tgt"]
     shift = 1 if (src, tgt) == ("o2j", "bms") and case.get("move_right_by") is None else 0
-    if src in ("osu", "qua") and tgt == "bms" and case.get("move_right_by"):
+    if src in ("osu", "qua", "o2j") and tgt == "bms" and case.get("move_right_by"):
         shift = case["move_right_by"]
     base = min(t for t, _ in want["tempo"]) if tgt == "bms" else 0.0  # BMS: no offset field, times from the first measure line
     W = dict(objs=[(k, c + shift, t - base, e - base) for k, c, t, e in want["objs"]], tempo=[(t - base, v) for t, v in want["tempo"]])
@@ -783,7 +1050,7 @@ def run_case(case):
 
 
 def _top_column_unused(case):
-    return case["src"] != "bms" and any(max(o[0] for o in ch["objs"]) < ch["keys"] - 1 for ch in case["score"]["charts"])
+    return case["src"] != "bms" and any(max((o[0] for o in ch["objs"]), default=-1) < ch["keys"] - 1 for ch in case["score"]["charts"])
 
 
 def _uniq(fails):
@@ -807,13 +1074,13 @@ def _by_family(case, pair, fails):
 
     twin = copy.deepcopy(case)
     for ch in twin["score"]["charts"]:
-        if max(o[0] for o in ch["objs"]) < ch["keys"] - 1:
+        if max((o[0] for o in ch["objs"]), default=-1) < ch["keys"] - 1:
             ch["objs"].append([ch["keys"] - 1, "1/2", "0"])
     twin_ids = {w for w, _ in run_case(twin)}
     own = [f for f in fails if f[0] not in twin_ids]
     if not own:
         return fails
-    ch = next(ch for ch in case["score"]["charts"] if max(o[0] for o in ch["objs"]) < ch["keys"] - 1)
+    ch = next(ch for ch in case["score"]["charts"] if max((o[0] for o in ch["objs"]), default=-1) < ch["keys"] - 1)
     detail = f"the source file declares {ch['keys']} keys and uses columns {sorted({o[0] for o in ch['objs']})}; with one more hit, in column {ch['keys'] - 1}, the same file passes these clause(s): {[w for w, _ in own]}; first: {own[0][1]}"
     return [f for f in fails if f[0] in twin_ids] + [(f"{pair}.declared_key_count", detail)]
 
@@ -840,10 +1107,14 @@ def _drive(rep, src, n_quick, n_thorough):
     rep.bound = (
         f"per target ({[NAME[t] for t in tgts]}) first the smallest files (per key count one hit, then hit + hold + hit with a tempo change; beat 0 at 0 / 500 ms), then {N} generated {NAME[src]} source files = {N * len(tgts)} random cases: 2-6 measures of 4/4 (8%: 20-60 measures), 1-4 tempo points ON MEASURE LINES (15% of the changes repeat the previous bpm) (bpm pool {list(BPM_POOL)}: <= 3 decimals, float32-exact), "
         f"beat 0 at {sorted(set(T0_POOL)) if src in ('osu', 'qua', 'sm') else [0]} ms, 1-5 used columns incl. the top one (in 10% of the osu / Quaver / .sm / O2Jam files the top column is left empty instead: family declared_key_count), 1-4 objects per column at k/d beat, d in {list(DENS)} (the 1/48-beat grid), 40% holds of {list(HOLD_BEATS)} beats (across tempo changes and measure lines), "
-        f">= 1/4 beat between objects of one column; key counts: Quaver side {list(QUA_KEYCOUNTS)}, .sm side {list(SM_TYPE)}, osu <-> BMS 1..9, O2Jam 7; BMS target layout = any layout with enough lanes; metadata text plain ASCII (no ':' ';' '//' '#', Shift-JIS encodable). {extra}. "
-        "Kept away from (known limitations): tempo changes off measure lines (.sm #BPMS beats have two decimals; reseating of changes < 0.001 measure apart), BMS lines out of time order, objects before the first tempo point, stops, measure-length changes, SM mines / rolls / lifts / fakes"
+        f">= 1/4 beat between objects of one column; key counts: Quaver side {list(QUA_KEYCOUNTS)}, .sm side {list(SM_TYPE)}, osu <-> BMS 1..10, O2Jam 7; BMS target layout = any layout with enough lanes; metadata text plain ASCII, in a quarter of the files (not O2Jam) from another pool: Shift-JIS full-width / U+3000, general Unicode incl. tab, U+00A0, U+3000, emoji, wave dash (not into / out of BMS), punctuation ':' ',' '#' '/' '\"' (never ';', which ends a .sm tag, nor '//', which starts a .sm comment). {extra}. "
+        f"MIXTURES (35% of the files draw one object shape from {list(SHAPES)}: hits only / holds only / top column holds only / every object in a chord at exactly one beat, also beat 0 / objects on beat 0, measure lines and the tempo changes / a chart without objects - the only one, or the middle one of three - ; 15% of those put beat 0 at {list(T0_FAR)} ms); "
+        "osu / Quaver timing points in shuffled file order (30%); Quaver files with every omissible key omitted and record keys shuffled (40%); osu <-> BMS key counts 1..10; move_right_by 1 or 2 (OsuToBMS / QuaToBMS, 30%), default / 0 / 2 (O2JToBMS); "
+        "CALLS (40% another way of reading: str / list with line ends / through an instance / Quaver safe=False / BMS layout positional or defaulted / read_file with str or pathlib.Path, LF or CRLF; 20% convert through an instance; raise_bad_mode=False / True given where the converter has it (30%); 10% the same read object first converted to another game and written; 10% convert + write twice, second output compared; "
+        "25% write_file instead of write; BMS target: no_sample_default given (25%), note_channel_config defaulted when it is BME). "
+        "Kept away from (known limitations): ';' and '//' in metadata text (the .sm writer emits them unescaped: stray text after the tag / the tag's own ';' and the next tag commented out), zero-length holds and two tempo points at one time (a .sm / BMS file cannot say them), tempo changes off measure lines (.sm #BPMS beats have two decimals; reseating of changes < 0.001 measure apart), BMS lines out of time order, objects before the first tempo point, stops, measure-length changes, SM mines / rolls / lifts / fakes"
     )
-    rep.rule = "a case is one source file + one target game (real read -> real convert -> real write -> target oracle vs source oracle); non-trivial when the score has a tempo change and a hold; every source file is first parsed by its own oracle and compared with the score it was made from (self-check)"
+    rep.rule = "a case is one source file + one target game + the way the three calls are made (real read -> real convert -> real write -> target oracle vs source oracle); non-trivial when the score has a tempo change and a hold; every source file is first parsed by its own oracle and compared with the score it was made from (self-check)"
     per = {t: 0 for t in tgts}
     by_clause, classes = {}, dict(beat0_not_at_0ms=0, top_column_unused=0, whole_ms_object_times=0, long_20_to_60_measures=0)
     simple = {t: simple_cases(src, t) for t in tgts}
@@ -863,7 +1134,16 @@ def _drive(rep, src, n_quick, n_thorough):
             classes["beat0_not_at_0ms"] += case["score"]["t0"] != 0
             classes["top_column_unused"] += _top_column_unused(case)
             classes["whole_ms_object_times"] += bool(case.get("int_ms"))
-            classes["long_20_to_60_measures"] += max(Fraction(o[1]) for ch in case["score"]["charts"] for o in ch["objs"]) >= 28
+            classes["long_20_to_60_measures"] += max((Fraction(o[1]) for ch in case["score"]["charts"] for o in ch["objs"]), default=0) >= 28
+            if case.get("shape"):
+                classes["shape_" + case["shape"]] = classes.get("shape_" + case["shape"], 0) + 1
+            for k_, v_ in (case.get("via") or {}).items():
+                key = f"via_{k_}_{v_}" if k_ in ("read", "pre") else f"via_{k_}"
+                classes[key] = classes.get(key, 0) + 1
+            for k_ in ("tps_shuffled", "sparse", "text"):
+                classes[k_] = classes.get(k_, 0) + bool(case.get(k_))
+            if case.get("move_right_by") is not None:
+                classes[f"move_right_by_{case['move_right_by']}"] = classes.get(f"move_right_by_{case['move_right_by']}", 0) + 1
             for what, d in run_case(case):
                 by_clause[what] = by_clause.get(what, 0) + 1
                 rep.fail(what, case, d)
